@@ -21,6 +21,8 @@ fixed('C02', 'F12', '6ce8c16', 'torchutils.searchsorted added eps to the caller 
 fixed('C02', 'F17', 'eea16c3', 'linear_spline inverse in float64 with num_bins=10 was only accurate to 2e-8 (float32 linspace)')
 fixed('C02', 'F20', '55e5f1f', 'cubic_spline inverse with strongly non-uniform parameters (all slopes of a bin < 1e-3): quadratic fallback dropped a non-negligible cubic term -> error up to 0.3 or NaN')
 fixed('C02', 'F21', 'cce9c3c', 'cubic_spline inverse in float32 at the end-points of the box: no root passed the eps=1e-5 mask, an arbitrary root was returned (inverse(-3.) = +3.)')
+fixed('C02', 'F26', 'c64b8d4', 'cubic_spline(inverse=True) in float64 at y = top of the box when the last bin is almost flat at its right end (derivative ~1e-13): sqrt of a radicand rounded below zero -> NaN output and log-abs-det')
+fixed('C17', 'F26', 'c64b8d4', 'unconstrained_cubic_spline(inverse=True, tail_bound=2.) at y = 2.0 (in the domain) returned NaN for strongly non-uniform parameter values (flat right end of the last bin)')
 fixed('C09', 'F22', 'c4c1ee6', 'cubic spline forward at the right end-point returned a value a few ulp above the top of the box (no clamp)')
 fixed('C17', 'F9', '25877ca', 'unconstrained_rational_quadratic_spline(x=100., tail_bound=100.) in float32: IndexError (searchsorted eps absorbed)')
 fixed('C17', 'F16', 'a0a002f', 'spline inverses tested their inputs against [left,right] instead of [bottom,top] (non-square boxes)')
